@@ -262,6 +262,17 @@ type opInfo struct {
 // the table are kept raw (ResultID = TypeID = 0).
 var opTable = map[uint16]opInfo{}
 
+// opFast mirrors opTable for opcodes below 512 (no map lookup on the hot path).
+var opFast [512]opInfo
+
+func lookupOp(op uint16) (opInfo, bool) {
+	if op < 512 {
+		return opFast[op], opFast[op].name != ""
+	}
+	i, ok := opTable[op]
+	return i, ok
+}
+
 func init() {
 	none := func(names map[uint16]string) {
 		for k, v := range names {
@@ -375,9 +386,14 @@ func init() {
 		6030: "RayQueryGetWorldRayOriginKHR", 6031: "RayQueryGetIntersectionObjectToWorldKHR",
 		6032: "RayQueryGetIntersectionWorldToObjectKHR", 6035: "AtomicFAddEXT",
 	})
+	for k, v := range opTable {
+		if k < 512 {
+			opFast[k] = v
+		}
+	}
 }
 
-// OpName returns the specification's name for an opcode ("Op" prefix included) or "Op#<n>".
+// OpcodeName returns the specification's name for an opcode ("Op" prefix included) or "Op#<n>".
 func OpcodeName(op uint16) string {
 	if i, ok := opTable[op]; ok {
 		return "Op" + i.name
